@@ -39,6 +39,14 @@ def _kwargs(case, scale=1.0, theta_scale=1.0):
     return kw
 
 
+def _layout(phi, lay):
+    if lay == 'F':
+        return np.asfortranarray(phi)
+    if lay == 'T':
+        return np.ascontiguousarray(phi.transpose()).transpose()      # same values, reversed strides
+    return phi.copy()
+
+
 def records(ctx, rng, nid):
     import dadi
     from dadi import Integration, PhiManip, Numerics
@@ -78,13 +86,19 @@ def records(ctx, rng, nid):
             case['theta0'] = {'c0': 0.0, 'c1': 0.0}
         if b * th2 < 0 and a * th1 + b * th2 < 0:
             th2 = (a * th1 / -b) * rng.random()
+        # memory layouts of the two densities (C, Fortran, transposed view): mixed layouts in every third record
+        lay1, lay2 = (('C', 'C'), ('T', 'C'), ('F', 'T'))[r % 3] if P >= 2 else ('C', 'C')
         try:
             c1 = dict(case, theta0={'c0': th1, 'c1': case['theta0']['c1']})
             c2 = dict(case, theta0={'c0': th2, 'c1': 0.0})
             c3 = dict(case, theta0={'c0': a * th1 + b * th2, 'c1': a * case['theta0']['c1']})
-            o1 = f(phi1.copy(), xx, T, **_kwargs(c1))
-            o2 = f(phi2.copy(), xx, T, **_kwargs(c2))
-            o3 = f(a * phi1 + b * phi2, xx, T, **_kwargs(c3))
+            # the caller's arrays are handed over as they are (no defensive copy) and the combination is formed afterwards:
+            # an integrator that modified its input would be seen here as a failure of linearity
+            p1 = _layout(phi1, lay1)
+            p2 = _layout(phi2, lay2)
+            o1 = f(p1, xx, T, **_kwargs(c1))
+            o2 = f(p2, xx, T, **_kwargs(c2))
+            o3 = f(a * p1 + b * p2, xx, T, **_kwargs(c3))
             out = {'o1': common.rats(o1.ravel()), 'o2': common.rats(o2.ravel()), 'o3': common.rats(o3.ravel())}
         except Exception as e:
             out = {'raised': type(e).__name__ + ':' + str(e)[:60]}
@@ -174,6 +188,48 @@ def records(ctx, rng, nid):
                     recs.append({'id': 'same-%d' % next(nid), 'op': 'same', 'site': 'Integration.%s' % ic.FUNCS[P],
                                  'in': {'law': 'ReferenceSizeInvariance', 'c': common.rat(c), 'P': P, 'mode': case['mode'] + '/whole-steps', 'frozen': case['frozen'],
                                         'ksteps': ksteps}, 'out': out})
+    # (b5) coefficient pairs of extreme magnitude (the statement quantifies over all (a,b)) and long epochs (many steps, the
+    # density close to stationary): linearity must hold at every scale of the density and of theta0
+    ry = random.Random(ctx.seed + 3305)
+    for P in (1, 2, 3) if ctx.quick else (1, 2, 3, 4):
+        for (a, b, long_epoch) in ((1e-9, 0.0, False), (1e-12, 1e-10, True), (1e9, -3e8, False)) if ctx.quick else \
+                ((1e-9, 0.0, False), (1e-12, 1e-10, True), (1e9, -3e8, False), (1e-7, 1e-7, True), (1e-15, 0.0, True), (1e12, 1.0, False)):
+            case = ic.gen_case(ry, P, kind='normal', n={1: 12, 2: 8, 3: 6, 4: 5}[P], mode='const' if long_epoch else ry.choice(['const', 'linear']))
+            case['t0'] = 0.0
+            case['layout'] = 'C'
+            case['frozen'] = [False] * P
+            case['nomut'] = [False] * P
+            if long_epoch:      # T/nu around 20: a few thousand steps on a small grid; no migration / selection so that steps stay long
+                for p_ in case['par']:
+                    p_['nu'] = {'c0': ry.uniform(0.5, 2.0), 'c1': 0.0}
+                    p_['gamma'] = {'c0': 0.0, 'c1': 0.0}
+                    p_['mig'] = [{'c0': 0.0, 'c1': 0.0, 'const': True} for _ in p_['mig']]
+            xx = rand_grid(random.Random(case['grid_seed']), case['n'], case['grid_kind'])
+            phi1 = rand_density(random.Random(case['phi_seed']), [case['n']] * P)
+            phi2 = rand_density(random.Random(case['phi_seed'] + 1), [case['n']] * P)
+            dts = []
+            for k in range(1, P + 1):
+                p_ = case['par'][k - 1]
+                ms = [p_['mig'][j]['c0'] for j in range(P) if j != k - 1] or [0]
+                dts.append(Integration._compute_dt(np.diff(xx), p_['nu']['c0'], ms, p_['gamma']['c0'], p_['h']['c0']))
+            T = (20.0 * min(p_['nu']['c0'] for p_ in case['par'])) if long_epoch else ry.uniform(2.2, 5.5) * min(dts)
+            th1, th2 = case['theta0']['c0'], ry.uniform(0.1, 4)
+            if a * th1 + b * th2 < 0:
+                th2 = 0.0
+            f = getattr(Integration, ic.FUNCS[P])
+            try:
+                c1 = dict(case, theta0={'c0': th1, 'c1': case['theta0']['c1']})
+                c2 = dict(case, theta0={'c0': th2, 'c1': 0.0})
+                c3 = dict(case, theta0={'c0': a * th1 + b * th2, 'c1': a * case['theta0']['c1']})
+                o1 = f(phi1, xx, T, **_kwargs(c1))
+                o2 = f(phi2, xx, T, **_kwargs(c2))
+                o3 = f(a * phi1 + b * phi2, xx, T, **_kwargs(c3))
+                out = {'o1': common.rats(o1.ravel()), 'o2': common.rats(o2.ravel()), 'o3': common.rats(o3.ravel())}
+            except Exception as e:
+                out = {'raised': type(e).__name__ + ':' + str(e)[:60]}
+            recs.append({'id': 'linear-%d' % next(nid), 'op': 'linear', 'site': 'Integration.%s' % ic.FUNCS[P],
+                         'in': {'a': common.rat(a), 'b': common.rat(b), 'P': P, 'mode': case['mode'] + ('/long-epoch' if long_epoch else '/extreme-coefficients'),
+                                'frozen': case['frozen'], 'nomut': case['nomut']}, 'out': out})
     # (c) whole models built from the public API: equilibrium, size change, split, migration, selection, admixture
     for r in range(8 if ctx.quick else 60):
         recs.append(model_record(rng, nid))
